@@ -364,15 +364,47 @@ def extract_function(repo, fn, spec, common_rules, fires, info):
         pc, phd = '__GV_LOOPCONTRACT_%d__' % k, '__GV_LOOPHEAD_%d__' % k
         ph[pc] = '\n' + clauses
         ph[phd] = '\n' + head
+        pre = spec.get(('pre', name, k), '')      # ghost statements just before the loop statement
+        tail = spec.get(('tail', name, k), '')    # ghost statements at the end of the loop body
+        if pre.strip():
+            ppre = '__GV_LOOPPRE_%d__' % k
+            q = lp.kw_pos - 1
+            while q >= 0 and body[q].isspace():
+                q -= 1
+            if q >= 0 and body[q] not in ';{}':
+                raise ExtractionBreak('%s: loop %d is not a statement of a block; cannot place its pre block' % (name, k))
+            ph[ppre] = '\n' + pre
+            ins.append((lp.kw_pos, -2, ' ' + ppre + ' '))
+        post = spec.get(('post', name, k), '')    # ghost statements just after the loop statement (anchors)
+        if post.strip():
+            q = lp.kw_pos - 1
+            while q >= 0 and body[q].isspace():
+                q -= 1
+            if q >= 0 and body[q] not in ';{}':
+                raise ExtractionBreak('%s: loop %d is not a statement of a block; cannot place its post block' % (name, k))
+            ppost = '__GV_LOOPPOST_%d__' % k
+            ph[ppost] = '\n' + post
+            endpos = lp.body_end
+            if lp.kind == 'do':
+                endpos = body.index(';', lp.tail_end) + 1
+            ins.append((endpos, -3, ' ' + ppost + ' '))
+        ptl = ''
+        if tail.strip():
+            if re.search(r'\bcontinue\b', body[lp.body_start:lp.body_end]):
+                raise ExtractionBreak('%s: loop %d has a tail block but its body contains continue' % (name, k))
+            ptl = ' __GV_LOOPTAIL_%d__ ' % k
+            ph[ptl.strip()] = '\n' + tail
         if lp.kind == 'do':
             ins.append((lp.tail_end, 0, ' ' + pc + ' '))
         else:
             ins.append((lp.header_end, 0, ' ' + pc + ' '))
         if lp.braced:
             ins.append((lp.body_start + 1, 1, ' ' + phd + ' '))
+            if ptl:
+                ins.append((lp.body_end - 1, -1, ptl))
         else:
             ins.append((lp.body_start, 1, '{ ' + phd + ' '))
-            ins.append((lp.body_end, -1, '}'))
+            ins.append((lp.body_end, -1, ptl + '}'))
     for pos, _, txt in sorted(ins, key=lambda x: (x[0], x[1]), reverse=True):
         body = body[:pos] + txt + body[pos:]
 
